@@ -15,6 +15,9 @@ var HTMLFrags = []string{
 	"<style>", "<title>", "<textarea>", "<xmp>", "<iframe src=x>", "<noembed>", "<noframes>", "<plaintext>", "<div>", "</div>", "<a href=\">\">", "<a title='>' >", "<noscript>", "</noscript>", "<b>", "<pre>", "</pre>",
 	"\n", "\n", "\n\n", " ", "x", "foo", "<", ">", "<<", "<!", "<script/>", "<script\n>", "<script", "<style ", "\"", "'", "=", "<a <script>", "<a x=\"<style>\">", "<svg>", "<math>", "</", "<//", "<p>", "<img src=x>",
 	"> ", "- ", "    ", "`", "```\n", "*", "[", "](", "&lt;", "&#60;script>", "\\<script>", "<\\script>", "<scr\nipt>", "<Title>", "<TEXTAREA>", "<xMp>", "<script\t>", "<script\f>", "<script\x00>", "<script:x>", "<scriptx>", "<x-script>",
+	// names that are no filtered name in ASCII case folding but would be one under
+	// Unicode lower-casing (U+0130 -> i, U+212A -> k)
+	"<scrİpt>", "<tİtle>", "<SCRİPT>", "<dİv>", "<lİ>", "</scrİpt>", "<Kbd>", "<xmK>",
 	"<DIV>", "<XMP>", "<PRE>", "<B>", "<I>", "<EM>", "<STYLE>", "<TITLE>", "<ABBR>", "<SPAN>", "<Div>", "<Xmp>", "</XMP>", "</DIV>", "<IFRAME>", "<SCRIPt>", "<TABLE>", "<STRONG>",
 }
 
